@@ -23,7 +23,7 @@ SPEC = {
              "a configuration is non-trivial when it registers >= 1 handler; distinct = distinct configuration hashes."),
     "assumptions": ["reference AVM (vlib/avm.py) semantics", "model: bare iff NumAppArgs==0; method iff arg0 == selector and config allows"],
     "min_evaluations": {"quick": 20000, "thorough": 200000},
-    "must_reach": ["handler_ran_ok", "rejected_ok", "clear_ok", "kind_expr", "kind_sub", "kind_abisub", "selector_collision_refused"],
+    "must_reach": ["handler_ran_ok", "rejected_ok", "clear_ok", "kind_expr", "kind_sub", "kind_abisub", "selector_collision_refused", "compiled_with_assembled_constants"],
     "shard_timeout": {"quick": 2400, "thorough": 14400},
 }
 
@@ -56,7 +56,7 @@ def gen_config(rng):
     for tag in ["B_" + oc for oc in OCS] + ["CLEAR"] + ["M_" + m["name"] for m in methods]:
         kinds[tag] = rng.choice(["expr", "expr_approve", "sub", "abisub"])
         if not tag.startswith("M_") and rng.random() < .2:
-            kinds[tag] = rng.choice(["expr_cond_mixed", "expr_if_mixed"])  # the call is made by the creator (see check_config)
+            kinds[tag] = rng.choice(["expr_cond_mixed", "expr_if_mixed", "expr_chain_no_else"])  # the call is made by the creator (see check_config)
     # the same Python action object registered for several OnCompletions (with their own CallConfigs), also as clear_state
     share = {}
     active = [oc for oc in OCS if bare[oc] != "NEVER"]
@@ -65,7 +65,7 @@ def gen_config(rng):
         for oc in active:
             if oc != src and rng.random() < .6:
                 share[oc] = src
-    return {"bare": bare, "methods": methods, "kinds": kinds, "clear": rng.random() < .6, "bare_share": share, "grow": rng.random() < .3,
+    return {"bare": bare, "methods": methods, "kinds": kinds, "clear": rng.random() < .6, "bare_share": share, "grow": rng.random() < .3, "assemble": rng.random() < .3,
             "versions": rng.sample([6, 7, 8, 9, 10], 2)}
 
 
@@ -77,6 +77,9 @@ def build_router(pt, cfg):
         if k == "expr_cond_mixed":
             # taken arm logs and falls out of the Cond (the router has to approve afterwards); the last arm exits by itself
             return pt.Cond([pt.Txn.sender() == pt.Global.creator_address(), pt.Log(pt.Bytes(tag))], [pt.Int(1), pt.Reject()])
+        if k == "expr_chain_no_else":
+            never = pt.Txn.sender() == pt.Global.zero_address()
+            return pt.Seq(pt.Log(pt.Bytes(tag)), pt.If(never).Then(pt.Reject()).ElseIf(pt.Txn.fee() > pt.Int(10**9)).Then(pt.Reject()).ElseIf(never).Then(pt.Err()))
         if k == "expr_if_mixed":
             return pt.If(pt.Txn.sender() == pt.Global.creator_address()).Then(pt.Log(pt.Bytes(tag))).Else(pt.Reject())
         if k == "expr":
@@ -107,7 +110,12 @@ def build_router(pt, cfg):
     r = pt.Router("t", bca, clear_state=cs)
     sels = {}
     def mk_method(name, nargs):
-        if nargs == 0:
+        if nargs == 0 and kinds.get("M_" + name) == "sub":
+            def f():
+                # the body ends in an If/ElseIf chain without Else whose arms all exit and none of which is taken
+                never = pt.Txn.sender() == pt.Global.zero_address()
+                return pt.Seq(pt.Log(pt.Bytes("M_" + name)), pt.If(never).Then(pt.Reject()).ElseIf(never).Then(pt.Reject()))
+        elif nargs == 0:
             def f():
                 return pt.Log(pt.Bytes("M_" + name))
         else:
@@ -164,7 +172,9 @@ def check_config(pt, acc, cfg, only_call=None):
         acc.nontrivial.add(key)
     for v in cfg["versions"]:
         try:
-            ap, cl, contract = r.compile_program(version=v)
+            ap, cl, contract = r.compile_program(version=v, assemble_constants=bool(cfg.get("assemble")))
+            if cfg.get("assemble"):
+                acc.counters["compiled_with_assembled_constants"] += 1
         except PT_ERRORS as e:
             acc.violation("router_compile_rejected", {"config": cfg, "version": v}, "%s: %s" % (type(e).__name__, str(e)[:300]))
             continue
